@@ -510,6 +510,10 @@ class SrvAdapter:
                     def cb0(*args, _tag=a['cb']):
                         me.cbs.append({'tag': _tag, 'args': toks(args)})
                         if me.flags.get('cbRaise'):
+                            if me.is_async and me.cfg.get('cb_cancel'):
+                                # the callback awaited something that was
+                                # cancelled
+                                raise asyncio.CancelledError()
                             raise Boom('callback')
                     if self.is_async:
                         # a coroutine callback that really suspends: a
